@@ -241,7 +241,8 @@ class Proc:
         return 'Proc(%s, shell=%r, args=%r, stdin=%r, cwd=%r)' % (self.role, self.shell, self.args, self.stdin, self.cwd)
 
 
-def procs_of(d: Den, role: str, env: Env, extra_stdin: Sequence = (), extra_gens: Sequence = (), cwd=None) -> List[Proc]:
+def procs_of(d: Den, role: str, env: Env, extra_stdin: Sequence = (), extra_gens: Sequence = (), cwd=None,
+             extra_first: bool = False) -> List[Proc]:
     """The processes started for one execution of a program with denotation d: first the
     programs that generate parts of its stdin (their output is needed before it starts), then
     the program itself.  stdin = the program's own parts in order, then `extra_stdin`
@@ -249,7 +250,7 @@ def procs_of(d: Den, role: str, env: Env, extra_stdin: Sequence = (), extra_gens
     out = []
     for g in list(d.gens) + list(extra_gens):
         out.append(Proc('gen', False, [ev(v, env) for v in g], None, cwd))
-    parts = list(d.stdin) + list(extra_stdin)
+    parts = (list(extra_stdin) + list(d.stdin)) if extra_first else (list(d.stdin) + list(extra_stdin))
     stdin = None if not parts else ''.join(ev(v, env) for v in parts)
     out.append(Proc(role, d.shell, argv_of(d, env), stdin, cwd))
     return out
